@@ -34,7 +34,6 @@ from jax2onnx.plugins.jax.numpy.histogram2d import (
 )
 from jax2onnx.plugins.plugin_system import PrimitiveLeafPlugin, register_primitive
 
-
 _HISTOGRAMDD_PRIM: Final = make_jnp_primitive("jax.numpy.histogramdd")
 _HISTOGRAMDD_PRIM.multiple_results = True
 
@@ -312,9 +311,11 @@ class JnpHistogramddPlugin(PrimitiveLeafPlugin):
         y_edges_dtype: np.dtype[Any] = np.dtype(
             getattr(y_edges_var.aval, "dtype", y_edges_out_dtype)
         )
-        compare_dtype: np.dtype[Any] = np.promote_types(
-            sample_dtype,
-            np.promote_types(x_edges_out_dtype, y_edges_out_dtype),
+        compare_dtype: np.dtype[Any] = np.dtype(
+            jnp.promote_types(
+                sample_dtype,
+                jnp.promote_types(x_edges_out_dtype, y_edges_out_dtype),
+            )
         )
 
         sample_val = ctx.get_value_for_var(
